@@ -55,7 +55,9 @@ def run_case(ctx, case):
             rec.violation("fewer points than control points accepted", case)
         return
     Zi = [q[0] if len(q) == 1 else np.array(list(q), dtype=object) for q in Z]
-    r = impl(lambda: curve.fit_points(Zi) if nodes is None else curve.fit_points(Zi, list(nodes)))
+    form = form_of(case)
+    rec.count("nodes-as", form if nodes is not None else "default")
+    r = impl(lambda: curve.fit_points(Zi) if nodes is None else curve.fit_points(Zi, as_form(nodes, form)))
     ns = nodes if nodes is not None else [U[0] + (U[-1] - U[0]) * F(i, len(Z) - 1) for i in range(len(Z))]
     B = [list(drv.call("basis.eval", list(U), W, p, z)[1]) for z in ns]      # nodes x npts
     admissible = rank(B) == n
@@ -114,9 +116,24 @@ def run_history(ctx):
         run_case(ctx, ser(dict(kind="function", U=U, W=None, src=rand_points(rng, n, dim))))
 
 
+def run_highdeg(ctx):
+    rng = ctx["rng"]
+    for i in range(budget(ctx, 6, 50)):
+        # degree 4..6 targets (Bezier or one interior knot): exact interpolation and least squares
+        p_ = rng.randint(4, 6)
+        U = [F(0)] * (p_ + 1) + ([F(rng.randint(1, 9), 10)] if i % 2 else []) + [F(1)] * (p_ + 1)
+        n = kv_info(U)[1]
+        k = n + (0 if i % 3 == 0 else rng.randint(1, 3))
+        nodes = sorted(set(F(rng.randint(0, 40), 40) for _ in range(5 * k)))[:k]
+        if len(nodes) < n:
+            continue
+        run_case(ctx, ser(dict(kind="points", U=U, W=None, points=rand_points(rng, len(nodes), 1), nodes=nodes)))
+
+
 def run(ctx):
     rng = ctx["rng"]
     run_history(ctx)
+    run_highdeg(ctx)
     for i in range(budget(ctx, 90, 1200)):
         U = rand_kv(rng, pmax=3, nintmax=3)
         p, n, knots = kv_info(U)
